@@ -120,6 +120,9 @@ def run(ctx, rep):
     create_accepts_damaged_size_rule(P, rep, 'R-C17-2c')
     chsize_domain_rule(P, rep, 'R-C17-3d', ctx.tier)
     truncate_as_one_parity_rule(P, rep, 'R-C17-10')
+    # a split shorter than recorded ends the usable parity: what lies in the following splits is at wrong positions
+    from .C14 import parity_size_prefix_rule
+    parity_size_prefix_rule(P, rep, 'R-C17-11')
     fix_keeps_layout_rule(P, rep, 'R-C17-9')
     grow_rule(P, rep, 'R-C17-5')
     offset_width_rule(P, rep, 'R-C17-1w')
